@@ -139,6 +139,42 @@ pub struct Plan {
     /// "/" (value 0) or the temp directory (value 1)
     #[serde(default)]
     pub ambient: Vec<(usize, usize, String, u64)>,
+    /// document slots that hold a `serde_json::Value` although the run's representation (`repr`) is the
+    /// stubbed store: one process then evaluates over two `Queryable` types
+    #[serde(default)]
+    pub value_slots: Vec<usize>,
+    /// the run process is the build with debug assertions on (if ./check built one)
+    #[serde(default)]
+    pub dbg_build: bool,
+}
+
+/// The representation of the documents of slot d.
+pub fn slot_repr(plan: &Plan, d: usize) -> u8 {
+    if plan.value_slots.contains(&d) {
+        0
+    } else {
+        plan.repr
+    }
+}
+
+/// The representations whose cold results a plan may need.
+pub fn plan_reprs(plan: &Plan) -> Vec<u8> {
+    if plan.value_slots.is_empty() || plan.repr == 0 {
+        vec![plan.repr]
+    } else {
+        vec![0, plan.repr]
+    }
+}
+
+/// plan_keys for every representation in the plan.
+pub fn plan_keys_r(plan: &Plan) -> Vec<(u8, usize, usize)> {
+    let mut out = vec![];
+    for (ct, q) in plan_keys(plan) {
+        for r in plan_reprs(plan) {
+            out.push((r, ct, q));
+        }
+    }
+    out
 }
 
 #[repr(C)]
@@ -591,7 +627,7 @@ fn exec_op(w: &World, op: &Op, hold: Option<(usize, usize, u8)>) -> (usize, usiz
             if sole {
                 w.freed_roots.lock().unwrap().push(old_root);
             }
-            let new = DocBox::new(&w.values[content], sim_repr(w.plan.repr), content);
+            let new = DocBox::new(&w.values[content], sim_repr(slot_repr(&w.plan, *d)), content);
             {
                 let mut p = w.probes.lock().unwrap();
                 p.doc_rebuilds += 1;
@@ -846,7 +882,7 @@ pub fn execute(plan: Plan, full: bool) -> RunResult {
     if sim_repr(plan.repr) {
         simdoc::set_personality(Personality(plan.repr - 1));
     }
-    let slots = plan.slots.iter().map(|cs| Mutex::new(Arc::new(Shared(DocBox::new(&values[cs[0]], sim_repr(plan.repr), cs[0]))))).collect();
+    let slots = plan.slots.iter().enumerate().map(|(d, cs)| Mutex::new(Arc::new(Shared(DocBox::new(&values[cs[0]], sim_repr(slot_repr(&plan, d)), cs[0]))))).collect();
     let n = plan.clients.len();
     let follow = plan.schedule.as_ref().and_then(|s| sched::unrle(s));
     let sch = Sched::new(n, plan.seed, plan.policy.clone(), plan.site_mask, plan.faults.clone(), plan.clock_jumps.clone(), follow, true, 5_000_000);
@@ -1195,8 +1231,19 @@ fn self_exe() -> std::path::PathBuf {
     std::env::current_exe().expect("current_exe")
 }
 
+/// The second build of the simulator: the same sources compiled with debug assertions on (the
+/// repository's `debug_assert!`s and `cfg!(debug_assertions)` branches are live in it), if ./check built it.
+pub fn dbg_exe() -> Option<std::path::PathBuf> {
+    std::env::var("VERIF_SIM_DBG").ok().map(std::path::PathBuf::from).filter(|p| p.exists())
+}
+
 pub fn spawn_with_input(args: &[&str], input: &str, timeout_s: u64) -> Result<String, String> {
-    let mut cmd = Command::new(self_exe());
+    spawn_exe_with_input(false, args, input, timeout_s)
+}
+
+pub fn spawn_exe_with_input(dbg: bool, args: &[&str], input: &str, timeout_s: u64) -> Result<String, String> {
+    let exe = if dbg { dbg_exe().unwrap_or_else(self_exe) } else { self_exe() };
+    let mut cmd = Command::new(exe);
     // the clock seam is preloaded into run processes only; the cold oracle reads the real clock
     if args.first() == Some(&"run") {
         if let Ok(p) = std::env::var("VERIF_SIMCLOCK") {
@@ -1270,7 +1317,7 @@ fn atomic_variant(plan: &Plan) -> Plan {
 fn run_plan_once(plan: &Plan, full: bool, timeout_s: u64) -> Result<RunResult, String> {
     let input = serde_json::to_string(plan).unwrap();
     let args: Vec<&str> = if full { vec!["run", "--full"] } else { vec!["run"] };
-    let out = spawn_with_input(&args, &input, timeout_s)?;
+    let out = spawn_exe_with_input(plan.dbg_build, &args, &input, timeout_s)?;
     crate::report::from_json::<RunResult>(out.trim()).map_err(|e| format!("bad run output: {} ({})", e, out.chars().take(300).collect::<String>()))
 }
 
@@ -1528,7 +1575,10 @@ pub fn gen_corpus_with(seed: u64, n_fam: usize, q_per_fam: usize, adv: bool) -> 
             let big_union = format!("$.wide[{}]", (0..3000).map(|i| format!("'k{}'", i)).collect::<Vec<_>>().join(","));
             let big_or = format!("$.huge[?{}]", (0..700).map(|i| format!("@=={}", i % 9)).collect::<Vec<_>>().join("||"));
             let big_chain = format!("$.wide{}", "['k1']".repeat(400));
-            for q in [big_union, big_or, big_chain] {
+            // texts beyond 64 KiB, and one that costs the parser more than half a million rule calls
+            let big_union2 = format!("$.wide[{}]", (0..6500).map(|i| format!("'name{}'", i)).collect::<Vec<_>>().join(","));
+            let big_or2 = format!("$.list[?{}]", (0..4700).map(|i| format!("@.id=={}", 100 + i % 900)).collect::<Vec<_>>().join("||"));
+            for q in [big_union, big_or, big_chain, big_union2, big_or2] {
                 queries.push(q);
                 fq.push(queries.len() - 1);
                 q_other_family.push(f);
@@ -1712,7 +1762,10 @@ pub fn gen_plan_opt(c: &Corpus, run_seed: u64, allow_stress: bool) -> (Plan, Pla
     // rarely for a few thousand runs (both were once caught "by one run in 2 000" and then lost)
     //   1: deep duel — 2-3 clients walk deeply nested documents with `..` and hand over at every node
     //   2: regex crowd — 9-12 clients gathered inside match/search
-    let theme: u8 = if stress { 0 } else { match rng.below(200) { 0..=2 => 1, 3..=6 => 2, _ => 0 } };
+    //   3: huge texts — one or two clients go through the query texts of tens of kilobytes
+    let theme: u8 = if stress { 0 } else { match rng.below(200) { 0..=2 => 1, 3..=6 => 2, 7..=8 => 3, _ => 0 } };
+    let huge_fam = (0..c.families.len()).find(|f| c.fam_queries[*f].iter().any(|q| c.queries[*q].len() > 60_000));
+    let theme = if theme == 3 && huge_fam.is_none() { 0 } else { theme };
     let deep_fam = (0..c.families.len()).find(|f| c.contents[c.families[*f][0]].starts_with("#deep"));
     let theme = if theme == 1 && deep_fam.is_none() { 0 } else { theme };
     let n_slots = if theme == 1 { 1 + rng.below(2) } else { 1 + rng.below(4) };
@@ -1731,6 +1784,8 @@ pub fn gen_plan_opt(c: &Corpus, run_seed: u64, allow_stress: bool) -> (Plan, Pla
         // a later slot often repeats an earlier family: equal or nearly equal documents live together
         let mut f = if theme == 1 {
             deep_fam.unwrap()
+        } else if theme == 3 {
+            huge_fam.unwrap()
         } else if theme == 2 && s == 0 {
             // the special families (even indexes) hold the regex queries
             2 * rng.below((c.families.len() + 1) / 2)
@@ -1767,6 +1822,15 @@ pub fn gen_plan_opt(c: &Corpus, run_seed: u64, allow_stress: bool) -> (Plan, Pla
             pool.push(qi);
         }
     }
+    if theme == 3 {
+        // every one of the huge texts takes part
+        for qi in &pool {
+            if c.queries[*qi].len() > 15_000 && !query_map.contains(qi) {
+                query_map.push(*qi);
+            }
+        }
+    }
+    let n_q = n_q.max(query_map.len() + 2);
     let mut guard = 0;
     while query_map.len() < n_q && guard < 100 {
         guard += 1;
@@ -1831,6 +1895,7 @@ pub fn gen_plan_opt(c: &Corpus, run_seed: u64, allow_stress: bool) -> (Plan, Pla
     let n_clients = match if crowd { 4 + rng.below(4) } else if stress { 1 + rng.below(2) } else { rng.weighted(&[2, 3, 3, 2]) } {
         _ if has_records => 1 + rng.below(2),
         _ if theme == 1 => 2 + rng.below(2),
+        _ if theme == 3 => 1 + rng.below(2),
         4 => 9,
         5 => 10,
         6 => 11,
@@ -1849,7 +1914,7 @@ pub fn gen_plan_opt(c: &Corpus, run_seed: u64, allow_stress: bool) -> (Plan, Pla
     let w_edit = if !stress && rng.chance(1, 6) { 1u32 } else { 0 };
     let mut clients = vec![];
     for _ in 0..n_clients {
-        let n_ops = if stress { 400 + rng.below(500) } else if crowd { 2 + rng.below(5) } else if theme == 1 { 2 + rng.below(3) } else if has_records { 3 + rng.below(6) } else { 3 + rng.below(38) };
+        let n_ops = if stress { 400 + rng.below(500) } else if crowd { 2 + rng.below(5) } else if theme == 1 { 2 + rng.below(3) } else if theme == 3 { 4 + rng.below(8) } else if has_records { 3 + rng.below(6) } else { 3 + rng.below(38) };
         // themed runs draw their queries from the ones that reach the theme's site
         let themed_q: Vec<usize> = (0..n_normal_q)
             .filter(|q| {
@@ -1857,6 +1922,7 @@ pub fn gen_plan_opt(c: &Corpus, run_seed: u64, allow_stress: bool) -> (Plan, Pla
                 match theme {
                     1 => t.contains(".."),
                     2 => t.contains("match(") || t.contains("search("),
+                    3 => t.len() > 15_000,
                     _ => false,
                 }
             })
@@ -2117,6 +2183,21 @@ pub fn gen_plan_opt(c: &Corpus, run_seed: u64, allow_stress: bool) -> (Plan, Pla
             }
         }
     }
+    // one stubbed-store run in four holds `Value` documents in some of its slots: two Queryable types in
+    // one process, evaluated in whatever order the schedule brings
+    let mut value_slots: Vec<usize> = vec![];
+    if repr > 0 && n_slots >= 2 && !stress && rng.chance(1, 4) {
+        for d in 0..n_slots {
+            if rng.chance(1, 2) {
+                value_slots.push(d);
+            }
+        }
+        if value_slots.len() == n_slots {
+            value_slots.pop();
+        }
+    }
+    // one run in six (and every other long-lived one) is executed by the debug-assertions build
+    let dbg_build = if stress { rng.chance(1, 2) } else { rng.chance(1, 6) };
     // one run in ten: the process' ambient state changes under the callers' feet
     let mut ambient: Vec<(usize, usize, String, u64)> = vec![];
     if rng.chance(1, 8) {
@@ -2207,10 +2288,12 @@ pub fn gen_plan_opt(c: &Corpus, run_seed: u64, allow_stress: bool) -> (Plan, Pla
         env_changes,
         held,
         ambient,
+        value_slots,
+        dbg_build,
     };
     // fillers select nothing whatever the document (their names occur nowhere), so they need no cold
     // process each; a sample of them is computed cold anyway, to check exactly that assumption
-    let keys = plan_keys(&plan).into_iter().filter(|(_, q)| *q < n_normal_q).map(|(ct, q)| (repr, content_map[ct], query_map[q])).collect();
+    let keys = plan_keys_r(&plan).into_iter().filter(|(_, _, q)| *q < n_normal_q).map(|(kr, ct, q)| (kr, content_map[ct], query_map[q])).collect();
     let filler_sample: Vec<(usize, usize)> = plan_keys(&plan).into_iter().filter(|(_, q)| *q >= n_normal_q).take(6).collect();
     (plan, PlanMeta { keys, content_map, query_map, filler_sample })
 }
@@ -2310,10 +2393,14 @@ pub fn judge(plan: &Plan, r: &RunResult, table: &ColdTable) -> Vec<Mismatch> {
                 _ => vec![plan.slots[0][0]],
             }
         };
+        let rec_repr = match &plan.clients[rec.c][rec.j] {
+            Op::Q { d, .. } | Op::P { d, .. } | Op::W { d, .. } | Op::Ref { d, .. } | Op::RefMut { d, .. } | Op::E { d, .. } => slot_repr(plan, *d),
+            _ => slot_repr(plan, 0),
+        };
         let mut matched = false;
         let mut first_expected = None;
         let mut have = false;
-        if plan.filler_from.map(|f| rec.q >= f).unwrap_or(false) && !contents.iter().any(|ct| table.contains_key(&(plan.repr, plan.contents[*ct].clone(), query.clone()))) {
+        if plan.filler_from.map(|f| rec.q >= f).unwrap_or(false) && !contents.iter().any(|ct| table.contains_key(&(rec_repr, plan.contents[*ct].clone(), query.clone()))) {
             // a filler whose cold result was not computed: a name that occurs in no document selects nothing
             let exp = if rec.kind == "Ref" { "None" } else { "Ok[]" };
             if fnv(exp.as_bytes()) != rec.digest {
@@ -2322,7 +2409,7 @@ pub fn judge(plan: &Plan, r: &RunResult, table: &ColdTable) -> Vec<Mismatch> {
             continue;
         }
         for ct in &contents {
-            let Some(cold) = table.get(&(plan.repr, plan.contents[*ct].clone(), query.clone())) else { continue };
+            let Some(cold) = table.get(&(rec_repr, plan.contents[*ct].clone(), query.clone())) else { continue };
             have = true;
             let Some(exp) = expected_for(&rec.kind, cold) else { continue };
             if first_expected.is_none() {
@@ -2554,8 +2641,8 @@ pub fn minimise(plan: &Plan, table: &mut ColdTable, class: &str, kind: &str, bud
                 let mut cand = cur.clone();
                 cand.queries[qi] = cand_q;
                 let mut ok = true;
-                for (ct, q) in plan_keys(&cand) {
-                    let key = (cand.repr, cand.contents[ct].clone(), cand.queries[q].clone());
+                for (kr, ct, q) in plan_keys_r(&cand) {
+                    let key = (kr, cand.contents[ct].clone(), cand.queries[q].clone());
                     if !table.contains_key(&key) {
                         match run_cold(&ColdReq { repr: key.0, content: key.1.clone(), query: key.2.clone() }) {
                             Ok(r) => {
@@ -2638,9 +2725,9 @@ pub fn par_map<T: Send + Sync, R: Send>(items: &[T], workers: usize, f: impl Fn(
 fn replay_body(plan: &Plan, m: &Mismatch, r: &RunResult, table: &ColdTable, original_ops: usize) -> Value {
     // the cold entries the replay needs travel with it, and are recomputed at replay time anyway
     let mut cold = vec![];
-    for (ct, q) in plan_keys(plan) {
-        if let Some(c) = table.get(&(plan.repr, plan.contents[ct].clone(), plan.queries[q].clone())) {
-            cold.push(json!({"content": plan.contents[ct], "query": plan.queries[q], "cold": c}));
+    for (kr, ct, q) in plan_keys_r(plan) {
+        if let Some(c) = table.get(&(kr, plan.contents[ct].clone(), plan.queries[q].clone())) {
+            cold.push(json!({"repr": kr, "content": plan.contents[ct], "query": plan.queries[q], "cold": c}));
         }
     }
     let mut p = plan.clone();
@@ -2784,7 +2871,9 @@ pub fn drive(tier_name: &str, seed: u64, workers: usize) -> i32 {
         let mut reqs: Vec<ColdReq> = need.iter().map(|k| ColdReq { repr: k.0, content: corpus.contents[k.1].clone(), query: corpus.queries[k.2].clone() }).collect();
         for (_, p, m) in &plans {
             for (ct, q) in &m.filler_sample {
-                reqs.push(ColdReq { repr: p.repr, content: p.contents[*ct].clone(), query: p.queries[*q].clone() });
+                for kr in plan_reprs(p) {
+                    reqs.push(ColdReq { repr: kr, content: p.contents[*ct].clone(), query: p.queries[*q].clone() });
+                }
             }
         }
         let colds = par_map(&reqs, workers, |r| run_cold(r));
@@ -2876,6 +2965,9 @@ pub fn drive(tier_name: &str, seed: u64, workers: usize) -> i32 {
                 *probes_sum.entry("runs_with_a_varied_environment").or_insert(0) += 1;
             }
             *probes_sum.entry("ambient_process_state_changes").or_insert(0) += r.probes.ambient_changes;
+            if plan.dbg_build && dbg_exe().is_some() {
+                *probes_sum.entry("runs_executed_by_the_debug_assertions_build").or_insert(0) += 1;
+            }
             *probes_sum.entry("documents_updated_in_place_by_the_caller").or_insert(0) += r.probes.docs_edited_in_place;
             *probes_sum.entry("result_sets_kept_and_looked_at_later").or_insert(0) += r.probes.results_looked_at_later;
             *probes_sum.entry("result_sets_looked_at_on_another_thread").or_insert(0) += r.probes.results_looked_at_on_another_thread;
@@ -2893,7 +2985,7 @@ pub fn drive(tier_name: &str, seed: u64, workers: usize) -> i32 {
                 Policy::RunToCompletion => "run_to_completion",
                 Policy::Barrier { .. } => "barrier_at_site",
             }).or_insert(0) += 1;
-            *reprs.entry(if plan.repr == 0 { "Value".to_string() } else { format!("SimDoc/p{}", plan.repr - 1) }).or_insert(0) += 1;
+            *reprs.entry(if plan.repr == 0 { "Value".to_string() } else if plan.value_slots.is_empty() { format!("SimDoc/p{}", plan.repr - 1) } else { format!("SimDoc/p{} and Value in one process", plan.repr - 1) }).or_insert(0) += 1;
             *clients_hist.entry(plan.clients.len()).or_insert(0) += 1;
             if samples.len() < 2 && plan.clients.len() >= 2 && r.sched.intra_op_switches >= 1 {
                 samples.push(json!({"run": i, "plan": plan, "schedule": r.schedule, "steps": r.sched.steps, "switches": r.sched.switches, "faults_fired": r.sched.faults_fired}));
@@ -3191,8 +3283,8 @@ pub fn replay(body: &Value) -> i32 {
                 }
             };
             let mut table: ColdTable = HashMap::new();
-            for (ct, q) in plan_keys(&plan) {
-                let req = ColdReq { repr: plan.repr, content: plan.contents[ct].clone(), query: plan.queries[q].clone() };
+            for (kr, ct, q) in plan_keys_r(&plan) {
+                let req = ColdReq { repr: kr, content: plan.contents[ct].clone(), query: plan.queries[q].clone() };
                 match run_cold(&req) {
                     Ok(c) => {
                         table.insert((req.repr, req.content, req.query), c);
